@@ -164,6 +164,38 @@ struct St {
     pair: Option<(Impl, crate::refscheme::Machine)>,
 }
 
+/// Complete session texts of every skeleton with total cost <= `cost` (used by C03/C12/C13).
+pub fn sessions_up_to(cost: u32) -> Vec<String> {
+    let mids = level_alphabet(cost, false);
+    let lasts = level_alphabet(cost, true);
+    let mut out = vec![];
+    fn rec(prefix: &mut Vec<Level>, depth: usize, budget: u32, mids: &[Level], lasts: &[Level], out: &mut Vec<String>) {
+        if prefix.len() + 1 == depth {
+            for l in lasts {
+                if l.cost() > budget {
+                    break;
+                }
+                prefix.push(*l);
+                out.push(format!("{} {}", PRE, program(prefix).join(" ")));
+                prefix.pop();
+            }
+            return;
+        }
+        for l in mids {
+            if l.cost() > budget {
+                break;
+            }
+            prefix.push(*l);
+            rec(prefix, depth, budget - l.cost(), mids, lasts, out);
+            prefix.pop();
+        }
+    }
+    for depth in 1..=4 {
+        rec(&mut vec![], depth, cost, &mids, &lasts, &mut out);
+    }
+    out
+}
+
 fn run_one(st: &mut St, acc: &mut Acc, levels: &[Level]) {
     acc.evals += 1;
     let forms_text = program(levels);
@@ -172,6 +204,7 @@ fn run_one(st: &mut St, acc: &mut Acc, levels: &[Level]) {
         all.push(' ');
         all.push_str(f);
     }
+    beat(&all);
     let forms = match parse_forms(&all) {
         Ok(f) => f,
         Err(e) => {
@@ -248,6 +281,7 @@ fn expand(st: &mut St, acc: &mut Acc, prefix: &mut Vec<Level>, depth: usize, bud
 }
 
 pub fn run(ctx: &Ctx) -> i32 {
+    start_watchdog("C02", 60);
     let mut rep = Report::new("model_checking");
     let b = std::env::var("C02_COST").ok().and_then(|s| s.parse().ok()).unwrap_or(ctx.tier.pick(4u32, 5u32));
     let mids = level_alphabet(b, false);
